@@ -1,4 +1,5 @@
 (* C04 - Seed derivation equals BIP39 PBKDF2-HMAC-SHA512 for every input. *)
+From B39 Require Import Proofs.Calls.
 From B39 Require Import Lib.Base Lib.Nfkd Lib.Pbkdf2 Model.GenTypes Model.Model Model.State Spec.Bip39Spec.
 From B39 Require Import Proofs.LibContract Proofs.Seed Proofs.History.
 
@@ -27,6 +28,11 @@ Proof. reflexivity. Qed.
    implementation by every run of the check); the witness is outside the domain, the boundary case inside: *)
 Example C04_f3_witness_outside : xsafe f3_passphrase = false. Proof. exact f3_witness_not_xsafe. Qed.
 Example C04_boundary_inside : xsafe (x61 :: concat (repeat [xcc; x81] 30)) = true. Proof. exact f3_boundary_is_xsafe. Qed.
+
+(* the functions this property is about, and every package function they reach, call only what the model
+   accounts for (closed world of callees, computed on coq/Gen/Calls.v, regenerated from the source every run) *)
+Theorem C04_callees : reach_ok "MnemonicToSeed" = true.
+Proof. exact calls_seed. Qed.
 
 Print Assumptions C04_seed.
 Print Assumptions C04_salt_prefix.
